@@ -42,3 +42,8 @@ register_meta('C01', level='proof', explanation='contracts on the span glue (nor
                            'percentage/sequence/unit extractor sweeps and BaseMergedParser.parse modifier pop are not under contract'])
 register_meta('C12', level='proof', explanation='contracts on the sweep and merge_all_tokens disjointness mechanisms',
               assumptions=['R1, R2, H_sign', 'add_to / add_mod / _select_candidates are not under contract (regex-layer dependent)'])
+
+register_meta('C16', level='proof', explanation='tokenizers and the matcher offset glue proved; trie build/find bounded',
+              assumptions=['BOUNDED (not proved): c16.trie.insert_then_find.bounded and c16.matcher.end_to_end.bounded stand in for '
+                           'TrieTree.insert/find on fixed shapes',
+                           'str.isspace/isdigit/isalpha are uninterpreted predicates of (string, position); ord() an uninterpreted code'])
